@@ -314,8 +314,11 @@ def evaluate(mod, cases, result, known, proof_problems):
     result['disagreements_checked'] = len(disagreements)
     result['oracle_failures'] = len(failures)
     if harness_errors:
+        # the harness (not the code under test) failed on some cases.  That is a tool failure (exit 2) -- unless the other cases of
+        # this run already exhibit a NEW failing input of the property: a concrete failing input is evidence whatever else went
+        # wrong, so the verdict is taken first (see verdict()) and the harness errors are reported next to it.
         c, e = harness_errors[0]
-        raise ToolFailure('harness/driver error on %d cases, first: case=%s error=%s' % (len(harness_errors), canon(c)[:500], canon(e)[:1500]))
+        result['harness_errors'] = 'harness/driver error on %d cases, first: case=%s error=%s' % (len(harness_errors), canon(c)[:500], canon(e)[:1500])
     return disagreements, failures
 
 
@@ -359,6 +362,8 @@ def verdict(mod, tier, seed, cases, result, replay_mode=False):
     proof_problems = result.get('proof_problems', [])
     disagreements, failures = evaluate(mod, cases, result, known, proof_problems)
     known_hits, new = classify(mod, failures, known)
+    if result.get('harness_errors') and not new:
+        raise ToolFailure(result['harness_errors'])
     result['known_findings_replayed'] = len(known_hits)
     lines = []
     rc = 0
@@ -447,6 +452,8 @@ def verdict(mod, tier, seed, cases, result, replay_mode=False):
                 path = write_replay(mod.ID, payload)
                 lines.append('VIOLATION property=%s replay=%s no-failing-input-found' % (mod.ID, path))
                 rc = 1
+    if result.get('harness_errors'):
+        lines.append('NOTE: ' + result['harness_errors'][:600])
     result['violations'] = 1 if rc else 0
     return rc, lines
 
